@@ -57,9 +57,11 @@ include hsp
 
 theorem reads_quant (scope : List Sym) (hsc : ScopeOK scope) (op : Op) (hop : op = .forall_ ∨ op = .exists_)
     (vs : List Sym) (args : List Term) (τ : Ty)
-    (hb : binderOK env vs = true) (hargs : ∀ a ∈ args, Reads sp env (vs.reverse ++ scope) a)
+    (hb : binderOK env vs = true)
+    (hargs : ∀ a ∈ args, Reads env ((vs.reverse ++ scope).map Binding.var) true (toSexpWith sp) a)
     (hty : (Term.node op args (.qvars vs)).typeOf = some τ)
-    (hS : stdTy op (.qvars vs) (args.map tyD) = some τ) : Reads sp env scope (.node op args (.qvars vs)) := by
+    (hS : stdTy op (.qvars vs) (args.map tyD) = some τ) :
+    NodeReads sp env (scope.map Binding.var) true (toSexpWith sp) op args (.qvars vs) := by
   have key : τ = .bool ∧ ∃ b, args = [b] ∧ tyD b = .bool := by
     rcases hop with rfl | rfl <;>
     · simp only [stdTy] at hS
@@ -75,8 +77,7 @@ theorem reads_quant (scope : List Sym) (hsc : ScopeOK scope) (op : Op) (hop : op
   have hbody := (hargs b (by simp)).2
   simp only [List.map_append, U, htb] at hbody
   have hnd : (!distinctNames (vs.map (·.name))) = false := by simp [hdist]
-  apply reads_of sp env scope _ _ _ hty (unfoldAV_plain _ _ _ (by rcases hop with rfl | rfl <;> decide))
-  rw [toSexpWith_node]
+  apply reads_of sp env _ true (toSexpWith sp) _ _ _ _ _ hty (unfoldAV_plain true _ _ _ (by rcases hop with rfl | rfl <;> decide))
   rcases hop with rfl | rfl
   · simp only [nodeSexp, walkKey, spell sp hsp "walk_forall" "forall" (by decide), List.map_cons, List.map_nil]
     rw [rd]
@@ -87,20 +88,51 @@ theorem reads_quant (scope : List Sym) (hsc : ScopeOK scope) (op : Op) (hop : op
     simp only [show ("exists" == "let") = false by decide, show ("exists" == "forall") = false by decide,
       Bool.false_eq_true, if_false, beq_self_eq_true, if_true, rdQuant, hvars, hne, hnd, hbody]
 
+/-- how the names of a `symbol` / `function` node resolve in the scope `sc` -/
+def Resolves (env : SEnv) (sc : List Binding) : Op → Payload → Prop
+  | .symbol, .sym s => rd env sc (quoteAtom s.name) = .ok (Term.sym s, s.ret)
+  | .function, .sym f => nameFine f.name = true ∧ lookupScope f.name sc [] = none ∧ env.lookupFun f.name = some f
+  | _, _ => True
+
+omit hsp in
+/-- in a scope of bound variables, `nodeOK` says how the names resolve -/
+theorem resolves_vars (scope : List Sym) (op : Op) (p : Payload) (args : List Term)
+    (hok : nodeOK env scope op p args = true) (hS : (stdTy op p (args.map tyD)).isSome = true) :
+    Resolves env (scope.map Binding.var) op p := by
+  unfold Resolves
+  split
+  · next s =>
+    have : args = [] := by
+      simp only [stdTy] at hS
+      split at hS
+      · next hts => simpa using hts
+      · simp at hS
+    subst this
+    exact atomTerm_sym env scope s hok
+  · next f =>
+    simp only [nodeOK, Bool.and_eq_true, bne_iff_ne, ne_eq, beq_iff_eq, Bool.not_eq_true'] at hok
+    obtain ⟨⟨⟨⟨_, hfine⟩, _⟩, hfv⟩, hlf⟩ := hok
+    refine ⟨hfine, ?_, hlf⟩
+    rw [lookupScope_vars]
+    cases hf : findVar scope f.name <;> simp_all
+  · trivial
+
 /-- every node that `Printable` admits is read back, given that its arguments are -/
-theorem reads_node (scope : List Sym) (hsc : ScopeOK scope) (op : Op) (args : List Term) (p : Payload) (τ : Ty)
+theorem reads_node (sc : List Binding) (hsc : ThFree sc) (srt : Bool) (toS : Term → Sexp) (scope0 : List Sym)
+    (op : Op) (args : List Term) (p : Payload) (τ : Ty)
     (h1 : op ≠ .forall_) (h2 : op ≠ .exists_)
-    (hargs : ∀ a ∈ args, Reads sp env scope a) (hty : (Term.node op args p).typeOf = some τ)
-    (hS : stdTy op p (args.map tyD) = some τ) (hok : nodeOK env scope op p args = true) :
-    Reads sp env scope (.node op args p) := by
+    (hargs : ∀ a ∈ args, Reads env sc srt toS a) (hty : (Term.node op args p).typeOf = some τ)
+    (hS : stdTy op p (args.map tyD) = some τ) (hok : nodeOK env scope0 op p args = true)
+    (hres : Resolves env sc op p) :
+    NodeReads sp env sc srt toS op args p := by
   cases op with
   | forall_ => exact absurd rfl h1
   | exists_ => exact absurd rfl h2
-  | and => exact reads_andor sp hsp env scope hsc _ (Or.inl rfl) p args τ hargs hty hS hok
-  | or => exact reads_andor sp hsp env scope hsc _ (Or.inr rfl) p args τ hargs hty hS hok
-  | not => exact reads_boolfix sp hsp env scope hsc _ (Or.inl rfl) p args τ hargs hty hS
-  | implies => exact reads_boolfix sp hsp env scope hsc _ (Or.inr (Or.inl rfl)) p args τ hargs hty hS
-  | iff => exact reads_boolfix sp hsp env scope hsc _ (Or.inr (Or.inr rfl)) p args τ hargs hty hS
+  | and => exact reads_andor sp hsp env sc hsc srt toS scope0 _ (Or.inl rfl) p args τ hargs hty hS hok
+  | or => exact reads_andor sp hsp env sc hsc srt toS scope0 _ (Or.inr rfl) p args τ hargs hty hS hok
+  | not => exact reads_boolfix sp hsp env sc hsc srt toS _ (Or.inl rfl) p args τ hargs hty hS
+  | implies => exact reads_boolfix sp hsp env sc hsc srt toS _ (Or.inr (Or.inl rfl)) p args τ hargs hty hS
+  | iff => exact reads_boolfix sp hsp env sc hsc srt toS _ (Or.inr (Or.inr rfl)) p args τ hargs hty hS
   | symbol =>
     simp only [stdTy] at hS
     split at hS
@@ -109,14 +141,13 @@ theorem reads_node (scope : List Sym) (hsc : ScopeOK scope) (op : Op) (args : Li
       subst hS
       have : args = [] := by simpa using hts
       subst this
-      apply reads_of sp env scope _ _ _ hty (unfoldAV_plain _ _ _ (by decide))
-      rw [toSexpWith_node]
+      apply reads_of sp env sc srt toS _ _ _ _ _ hty (unfoldAV_plain srt _ _ _ (by decide))
       simp only [nodeSexp]
-      exact atomTerm_sym env scope s hok
+      exact hres
     · simp at hS
   | function =>
     cases p with
-    | sym f => exact reads_function sp env scope f args τ hargs hty hS hok
+    | sym f => exact reads_function sp env sc srt toS f args τ hargs hty hS hres.1 hres.2.1 hres.2.2
     | _ => simp [stdTy] at hS
   | realConst =>
     have : ∃ r, p = .q r ∧ args = [] := by
@@ -125,7 +156,7 @@ theorem reads_node (scope : List Sym) (hsc : ScopeOK scope) (op : Op) (args : Li
       · next ts r hts => exact ⟨r, rfl, by simpa using hts⟩
       · simp at hS
     obtain ⟨r, rfl, rfl⟩ := this
-    exact reads_realConst sp env scope hsp hsc r τ hty hS
+    exact reads_realConst sp env sc srt toS hsp hsc r τ hty hS
   | boolConst =>
     have : ∃ r, p = .b r ∧ args = [] := by
       simp only [stdTy] at hS
@@ -133,7 +164,7 @@ theorem reads_node (scope : List Sym) (hsc : ScopeOK scope) (op : Op) (args : Li
       · next ts r hts => exact ⟨r, rfl, by simpa using hts⟩
       · simp at hS
     obtain ⟨r, rfl, rfl⟩ := this
-    exact reads_boolConst sp env scope hsc r τ hty hS
+    exact reads_boolConst sp env sc srt toS hsc r τ hty hS
   | intConst =>
     have : ∃ r, p = .i r ∧ args = [] := by
       simp only [stdTy] at hS
@@ -141,7 +172,7 @@ theorem reads_node (scope : List Sym) (hsc : ScopeOK scope) (op : Op) (args : Li
       · next ts r hts => exact ⟨r, rfl, by simpa using hts⟩
       · simp at hS
     obtain ⟨r, rfl, rfl⟩ := this
-    exact reads_intConst sp env scope hsp hsc r τ hty hS hok
+    exact reads_intConst sp env sc srt toS scope0 hsp hsc r τ hty hS hok
   | strConst =>
     have : ∃ r, p = .s r ∧ args = [] := by
       simp only [stdTy] at hS
@@ -149,15 +180,15 @@ theorem reads_node (scope : List Sym) (hsc : ScopeOK scope) (op : Op) (args : Li
       · next ts r hts => exact ⟨r, rfl, by simpa using hts⟩
       · simp at hS
     obtain ⟨r, rfl, rfl⟩ := this
-    exact reads_strConst sp env scope r τ hty hS hok
-  | plus => exact reads_plustimes sp hsp env scope hsc _ (Or.inl rfl) p args τ hargs hty hS hok
-  | times => exact reads_plustimes sp hsp env scope hsc _ (Or.inr rfl) p args τ hargs hty hS hok
-  | minus => exact reads_minus sp hsp env scope hsc p args τ hargs hty hS
-  | le => exact reads_rel sp hsp env scope hsc _ (Or.inl rfl) p args τ hargs hty hS
-  | lt => exact reads_rel sp hsp env scope hsc _ (Or.inr rfl) p args τ hargs hty hS
-  | equals => exact reads_equals sp hsp env scope hsc p args τ hargs hty hS
-  | ite => exact reads_ite sp hsp env scope hsc p args τ hargs hty hS
-  | toReal => exact reads_toReal sp hsp env scope hsc p args τ hargs hty hS
+    exact reads_strConst sp env sc srt toS scope0 r τ hty hS hok
+  | plus => exact reads_plustimes sp hsp env sc hsc srt toS scope0 _ (Or.inl rfl) p args τ hargs hty hS hok
+  | times => exact reads_plustimes sp hsp env sc hsc srt toS scope0 _ (Or.inr rfl) p args τ hargs hty hS hok
+  | minus => exact reads_minus sp hsp env sc hsc srt toS p args τ hargs hty hS
+  | le => exact reads_rel sp hsp env sc hsc srt toS _ (Or.inl rfl) p args τ hargs hty hS
+  | lt => exact reads_rel sp hsp env sc hsc srt toS _ (Or.inr rfl) p args τ hargs hty hS
+  | equals => exact reads_equals sp hsp env sc hsc srt toS p args τ hargs hty hS
+  | ite => exact reads_ite sp hsp env sc hsc srt toS p args τ hargs hty hS
+  | toReal => exact reads_toReal sp hsp env sc hsc srt toS p args τ hargs hty hS
   | bvConst =>
     have : ∃ v w, p = .bv v w ∧ args = [] := by
       simp only [stdTy] at hS
@@ -165,59 +196,63 @@ theorem reads_node (scope : List Sym) (hsc : ScopeOK scope) (op : Op) (args : Li
       · next ts v w hts => exact ⟨v, w, rfl, by simpa using hts⟩
       · simp at hS
     obtain ⟨v, w, rfl, rfl⟩ := this
-    exact reads_bvConst sp env scope v w τ hty hS
-  | bvNot => exact reads_bvun sp hsp env scope hsc _ (Or.inl rfl) p args τ hargs hty hS
-  | bvNeg => exact reads_bvun sp hsp env scope hsc _ (Or.inr rfl) p args τ hargs hty hS
-  | bvAnd => exact reads_bvbin sp hsp env scope hsc _ ⟨"walk_bv_and", "bvand", by decide⟩ p args τ hargs hty hS
-  | bvOr => exact reads_bvbin sp hsp env scope hsc _ ⟨"walk_bv_or", "bvor", by decide⟩ p args τ hargs hty hS
-  | bvXor => exact reads_bvbin sp hsp env scope hsc _ ⟨"walk_bv_xor", "bvxor", by decide⟩ p args τ hargs hty hS
-  | bvAdd => exact reads_bvbin sp hsp env scope hsc _ ⟨"walk_bv_add", "bvadd", by decide⟩ p args τ hargs hty hS
-  | bvSub => exact reads_bvbin sp hsp env scope hsc _ ⟨"walk_bv_sub", "bvsub", by decide⟩ p args τ hargs hty hS
-  | bvMul => exact reads_bvbin sp hsp env scope hsc _ ⟨"walk_bv_mul", "bvmul", by decide⟩ p args τ hargs hty hS
-  | bvUdiv => exact reads_bvbin sp hsp env scope hsc _ ⟨"walk_bv_udiv", "bvudiv", by decide⟩ p args τ hargs hty hS
-  | bvUrem => exact reads_bvbin sp hsp env scope hsc _ ⟨"walk_bv_urem", "bvurem", by decide⟩ p args τ hargs hty hS
-  | bvLshl => exact reads_bvbin sp hsp env scope hsc _ ⟨"walk_bv_lshl", "bvshl", by decide⟩ p args τ hargs hty hS
-  | bvLshr => exact reads_bvbin sp hsp env scope hsc _ ⟨"walk_bv_lshr", "bvlshr", by decide⟩ p args τ hargs hty hS
-  | bvAshr => exact reads_bvbin sp hsp env scope hsc _ ⟨"walk_bv_ashr", "bvashr", by decide⟩ p args τ hargs hty hS
-  | bvSdiv => exact reads_bvbin sp hsp env scope hsc _ ⟨"walk_bv_sdiv", "bvsdiv", by decide⟩ p args τ hargs hty hS
-  | bvSrem => exact reads_bvbin sp hsp env scope hsc _ ⟨"walk_bv_srem", "bvsrem", by decide⟩ p args τ hargs hty hS
-  | bvConcat => exact reads_concat sp hsp env scope hsc p args τ hargs hty hS
-  | bvComp => exact reads_comp sp hsp env scope hsc p args τ hargs hty hS
-  | bvExtract => exact reads_extract sp hsp env scope p args τ hargs hty hS
-  | bvUlt => exact reads_bvrel sp hsp env scope hsc _ ⟨"walk_bv_ult", "bvult", by decide⟩ p args τ hargs hty hS
-  | bvUle => exact reads_bvrel sp hsp env scope hsc _ ⟨"walk_bv_ule", "bvule", by decide⟩ p args τ hargs hty hS
-  | bvSlt => exact reads_bvrel sp hsp env scope hsc _ ⟨"walk_bv_slt", "bvslt", by decide⟩ p args τ hargs hty hS
-  | bvSle => exact reads_bvrel sp hsp env scope hsc _ ⟨"walk_bv_sle", "bvsle", by decide⟩ p args τ hargs hty hS
-  | bvRol => exact reads_rot sp hsp env scope _ (Or.inl rfl) p args τ hargs hty hS
-  | bvRor => exact reads_rot sp hsp env scope _ (Or.inr rfl) p args τ hargs hty hS
-  | bvZext => exact reads_ext sp hsp env scope _ (Or.inl rfl) p args τ hargs hty hS
-  | bvSext => exact reads_ext sp hsp env scope _ (Or.inr rfl) p args τ hargs hty hS
-  | bvToNatural => exact reads_bv2nat sp hsp env scope hsc p args τ hargs hty hS
-  | strLength => exact reads_str sp hsp env scope hsc _ ⟨"walk_str_length", "str.len", by decide⟩ p args τ hargs hty hS
-  | strCharAt => exact reads_str sp hsp env scope hsc _ ⟨"walk_str_charat", "str.at", by decide⟩ p args τ hargs hty hS
-  | strContains => exact reads_str sp hsp env scope hsc _ ⟨"walk_str_contains", "str.contains", by decide⟩ p args τ hargs hty hS
-  | strIndexOf => exact reads_str sp hsp env scope hsc _ ⟨"walk_str_indexof", "str.indexof", by decide⟩ p args τ hargs hty hS
-  | strReplace => exact reads_str sp hsp env scope hsc _ ⟨"walk_str_replace", "str.replace", by decide⟩ p args τ hargs hty hS
-  | strSubstr => exact reads_str sp hsp env scope hsc _ ⟨"walk_str_substr", "str.substr", by decide⟩ p args τ hargs hty hS
-  | strPrefixOf => exact reads_str sp hsp env scope hsc _ ⟨"walk_str_prefixof", "str.prefixof", by decide⟩ p args τ hargs hty hS
-  | strSuffixOf => exact reads_str sp hsp env scope hsc _ ⟨"walk_str_suffixof", "str.suffixof", by decide⟩ p args τ hargs hty hS
-  | strConcat => exact reads_strConcat sp hsp env scope hsc p args τ hargs hty hS hok
-  | arraySelect => exact reads_select sp hsp env scope hsc p args τ hargs hty hS
-  | arrayStore => exact reads_store sp hsp env scope hsc p args τ hargs hty hS
-  | arrayValue => exact reads_arrayValue sp hsp env scope hsc p args τ hargs hty hS hok
-  | div => exact reads_div sp hsp env scope hsc p args τ hargs hty hS hok
+    exact reads_bvConst sp env sc srt toS v w τ hty hS
+  | bvNot => exact reads_bvun sp hsp env sc hsc srt toS _ (Or.inl rfl) p args τ hargs hty hS
+  | bvNeg => exact reads_bvun sp hsp env sc hsc srt toS _ (Or.inr rfl) p args τ hargs hty hS
+  | bvAnd => exact reads_bvbin sp hsp env sc hsc srt toS _ ⟨"walk_bv_and", "bvand", by decide⟩ p args τ hargs hty hS
+  | bvOr => exact reads_bvbin sp hsp env sc hsc srt toS _ ⟨"walk_bv_or", "bvor", by decide⟩ p args τ hargs hty hS
+  | bvXor => exact reads_bvbin sp hsp env sc hsc srt toS _ ⟨"walk_bv_xor", "bvxor", by decide⟩ p args τ hargs hty hS
+  | bvAdd => exact reads_bvbin sp hsp env sc hsc srt toS _ ⟨"walk_bv_add", "bvadd", by decide⟩ p args τ hargs hty hS
+  | bvSub => exact reads_bvbin sp hsp env sc hsc srt toS _ ⟨"walk_bv_sub", "bvsub", by decide⟩ p args τ hargs hty hS
+  | bvMul => exact reads_bvbin sp hsp env sc hsc srt toS _ ⟨"walk_bv_mul", "bvmul", by decide⟩ p args τ hargs hty hS
+  | bvUdiv => exact reads_bvbin sp hsp env sc hsc srt toS _ ⟨"walk_bv_udiv", "bvudiv", by decide⟩ p args τ hargs hty hS
+  | bvUrem => exact reads_bvbin sp hsp env sc hsc srt toS _ ⟨"walk_bv_urem", "bvurem", by decide⟩ p args τ hargs hty hS
+  | bvLshl => exact reads_bvbin sp hsp env sc hsc srt toS _ ⟨"walk_bv_lshl", "bvshl", by decide⟩ p args τ hargs hty hS
+  | bvLshr => exact reads_bvbin sp hsp env sc hsc srt toS _ ⟨"walk_bv_lshr", "bvlshr", by decide⟩ p args τ hargs hty hS
+  | bvAshr => exact reads_bvbin sp hsp env sc hsc srt toS _ ⟨"walk_bv_ashr", "bvashr", by decide⟩ p args τ hargs hty hS
+  | bvSdiv => exact reads_bvbin sp hsp env sc hsc srt toS _ ⟨"walk_bv_sdiv", "bvsdiv", by decide⟩ p args τ hargs hty hS
+  | bvSrem => exact reads_bvbin sp hsp env sc hsc srt toS _ ⟨"walk_bv_srem", "bvsrem", by decide⟩ p args τ hargs hty hS
+  | bvConcat => exact reads_concat sp hsp env sc hsc srt toS p args τ hargs hty hS
+  | bvComp => exact reads_comp sp hsp env sc hsc srt toS p args τ hargs hty hS
+  | bvExtract => exact reads_extract sp hsp env sc srt toS p args τ hargs hty hS
+  | bvUlt => exact reads_bvrel sp hsp env sc hsc srt toS _ ⟨"walk_bv_ult", "bvult", by decide⟩ p args τ hargs hty hS
+  | bvUle => exact reads_bvrel sp hsp env sc hsc srt toS _ ⟨"walk_bv_ule", "bvule", by decide⟩ p args τ hargs hty hS
+  | bvSlt => exact reads_bvrel sp hsp env sc hsc srt toS _ ⟨"walk_bv_slt", "bvslt", by decide⟩ p args τ hargs hty hS
+  | bvSle => exact reads_bvrel sp hsp env sc hsc srt toS _ ⟨"walk_bv_sle", "bvsle", by decide⟩ p args τ hargs hty hS
+  | bvRol => exact reads_rot sp hsp env sc srt toS _ (Or.inl rfl) p args τ hargs hty hS
+  | bvRor => exact reads_rot sp hsp env sc srt toS _ (Or.inr rfl) p args τ hargs hty hS
+  | bvZext => exact reads_ext sp hsp env sc srt toS _ (Or.inl rfl) p args τ hargs hty hS
+  | bvSext => exact reads_ext sp hsp env sc srt toS _ (Or.inr rfl) p args τ hargs hty hS
+  | bvToNatural => exact reads_bv2nat sp hsp env sc hsc srt toS p args τ hargs hty hS
+  | strLength => exact reads_str sp hsp env sc hsc srt toS _ ⟨"walk_str_length", "str.len", by decide⟩ p args τ hargs hty hS
+  | strCharAt => exact reads_str sp hsp env sc hsc srt toS _ ⟨"walk_str_charat", "str.at", by decide⟩ p args τ hargs hty hS
+  | strContains => exact reads_str sp hsp env sc hsc srt toS _ ⟨"walk_str_contains", "str.contains", by decide⟩ p args τ hargs hty hS
+  | strIndexOf => exact reads_str sp hsp env sc hsc srt toS _ ⟨"walk_str_indexof", "str.indexof", by decide⟩ p args τ hargs hty hS
+  | strReplace => exact reads_str sp hsp env sc hsc srt toS _ ⟨"walk_str_replace", "str.replace", by decide⟩ p args τ hargs hty hS
+  | strSubstr => exact reads_str sp hsp env sc hsc srt toS _ ⟨"walk_str_substr", "str.substr", by decide⟩ p args τ hargs hty hS
+  | strPrefixOf => exact reads_str sp hsp env sc hsc srt toS _ ⟨"walk_str_prefixof", "str.prefixof", by decide⟩ p args τ hargs hty hS
+  | strSuffixOf => exact reads_str sp hsp env sc hsc srt toS _ ⟨"walk_str_suffixof", "str.suffixof", by decide⟩ p args τ hargs hty hS
+  | strConcat => exact reads_strConcat sp hsp env sc hsc srt toS scope0 p args τ hargs hty hS hok
+  | arraySelect => exact reads_select sp hsp env sc hsc srt toS p args τ hargs hty hS
+  | arrayStore => exact reads_store sp hsp env sc hsc srt toS p args τ hargs hty hS
+  | arrayValue => exact reads_arrayValue sp hsp env sc hsc srt toS scope0 p args τ hargs hty hS hok
+  | div => exact reads_div sp hsp env sc hsc srt toS scope0 p args τ hargs hty hS hok
   | strToInt | intToStr | pow | algebraicConst => simp [stdTy] at hS
 
 /-- the printed form of every `Printable` term is read back as the term (array values unfolded), with its sort -/
-theorem reads_all : ∀ (t : Term) (scope : List Sym), ScopeOK scope → Printable env scope t = true → Reads sp env scope t
+theorem reads_all : ∀ (t : Term) (scope : List Sym), ScopeOK scope → Printable env scope t = true →
+    Reads env (scope.map Binding.var) true (toSexpWith sp) t
   | .node op args p, scope, hsc, hP => by
     obtain ⟨τ, hS, hty, hcase⟩ := printable_node env scope op args p hP
-    rcases hcase with ⟨vs, hq, rfl, hb, hargsP⟩ | ⟨h1, h2, hok, hargsP⟩
-    · have hsc' := scopeOK_binder hb hsc
-      exact reads_quant sp hsp env scope hsc op hq vs args τ hb
-        (fun a ha => reads_all a (vs.reverse ++ scope) hsc' (hargsP a ha)) hty hS
-    · exact reads_node sp hsp env scope hsc op args p τ h1 h2
-        (fun a ha => reads_all a scope hsc (hargsP a ha)) hty hS hok
+    have key : NodeReads sp env (scope.map Binding.var) true (toSexpWith sp) op args p := by
+      rcases hcase with ⟨vs, hq, rfl, hb, hargsP⟩ | ⟨h1, h2, hok, hargsP⟩
+      · have hsc' := scopeOK_binder hb hsc
+        exact reads_quant sp hsp env scope hsc op hq vs args τ hb
+          (fun a ha => reads_all a (vs.reverse ++ scope) hsc' (hargsP a ha)) hty hS
+      · exact reads_node sp hsp env _ (thFree_vars hsc) true (toSexpWith sp) scope op args p τ h1 h2
+          (fun a ha => reads_all a scope hsc (hargsP a ha)) hty hS hok
+          (resolves_vars env scope op p args hok (by rw [hS]; rfl))
+    exact ⟨key.1, by rw [toSexpWith_node]; exact key.2⟩
 termination_by t => sizeOf t
 decreasing_by
   all_goals
